@@ -85,9 +85,21 @@ impl SemanticState {
             path.display(),
             base_path.display()
         );
+        let text = std::fs::read_to_string(path)?;
         self.add_module(
-            &parser::parse_str(&std::fs::read_to_string(path)?).map_err(|e| {
-                let proc_macro2::LineColumn { line, column } = e.span().start();
+            &parser::parse_str(&text).map_err(|e| {
+                let span = e.span();
+                let proc_macro2::LineColumn { mut line, mut column } = span.start();
+                if span.start() == span.end() {
+                    // The input ended too early: there is no token the error could point at
+                    // (the span is the empty one at 1:0). It is where the text ends.
+                    for (index, text_line) in text.lines().enumerate() {
+                        if !text_line.trim().is_empty() {
+                            line = index + 1;
+                            column = text_line.trim_end().chars().count();
+                        }
+                    }
+                }
                 anyhow::Error::new(e).context(format!(
                     "failed to parse {}:{}:{}",
                     path.display(),
